@@ -323,8 +323,8 @@ def gen_annotation(rng, residues=RES24, min_len=1, max_len=15, kinds=APRIORI, p=
     if has('static', static_p):
         rules = []
         for _ in range(rng.choice([1, 1, 2])):
-            # literal residue targets only: condense_static_mods feeds the target to re.finditer (regex specials = other domain)
-            tg = rng.choice(['N-Term', 'C-Term'] + [c for c in set(seq) if c.isalnum()] + [rng.choice([c for c in residues if c.isalnum()])])
+            # rule targets are matched literally (repo 72c1d65: condense_static_mods no longer treats them as regular expressions)
+            tg = rng.choice(['N-Term', 'C-Term'] + [c for c in set(seq) if c not in '@,[]'] + [rng.choice([c for c in residues if c.isalnum()])])
             if rng.random() < 0.3:
                 tg = tg + ',' + rng.choice([c for c in residues if c.isalnum()] + ['N-Term', 'C-Term'])
             body = ''
